@@ -344,6 +344,10 @@ func streamJobs(c *Ctx) []streamJob {
 	for i := 0; i < n; i++ {
 		jobs = append(jobs, streamJob{fmt.Sprintf("samples-%d", i), "samples", rng.Int63n(1 << 40), cyc, true})
 	}
+	// one run across the point where the 2^22-clock counter of the audio unit wraps (1,048,576 machine cycles)
+	if !c.Thorough() {
+		jobs = append(jobs, streamJob{"samples-long", "samples", rng.Int63n(1 << 40), 1<<20 + 70000, true})
+	}
 	jobs = append(jobs, streamJob{"samples-detached", "samples", rng.Int63n(1 << 40), cyc / 4, false})
 	ns := 4
 	if c.Thorough() {
